@@ -140,7 +140,7 @@ theorem C07_seq_children (hG : GuardsCover = true) (hE : ExtOk E) (kind : String
     keys.zip errs = kidsOf (posReports (v.seqItems.map (colC E c))) ∧
     keys = (((v.seqItems.map (colC E c)).zipIdx).filter fun p => isRejected p.1).map
       fun p => Val.int p.2 := by
-  simp only [colC] at h
+  simp only [colC, seqColWith] at h
   split at h
   · cases h
   · rename_i hseq
@@ -167,7 +167,7 @@ theorem C07_seq_node_or_leaf (kind : String) (c : Conv) (v : Val) {t : Err}
     (h : colC E (.seq kind c) v = .ok (some t)) :
     (∃ keys errs, keys ≠ [] ∧ t = .product (expected E (.seq kind c) false) keys errs v [] []) ∨
     (∃ cause, t = .wrongType (expected E (.seq kind c) false) v cause none) := by
-  simp only [colC] at h
+  simp only [colC, seqColWith] at h
   split at h
   · cases h; exact .inr ⟨none, rfl⟩
   · cases hce : convertEach (tryC E c) (colC E c) v.seqItems 0 with
@@ -495,6 +495,45 @@ theorem C07_sum_children (cs : List Conv) (v : Val) {ts : List Err}
       simp only [Option.map_some, Option.some.injEq] at hf hc
       subst hf; subst hc
       exact ⟨hcv, hfv⟩
+
+/-- the diagnostic pass of the list member of `ValueOrList[T]` is that of the list converter `List[T]` -/
+theorem colC_seq_list_eq (c : Conv) :
+    seqColWith (expected E (.seq "list" c) false) (tryC E c) (colC E c) "list" = colC E (.seq "list" c) := by
+  funext v; simp only [colC]
+
+/-- the fast pass of the list member of `ValueOrList[T]` is that of the list converter `List[T]` -/
+theorem tryC_seq_list_eq (c : Conv) :
+    seqTryWith (tryC E c) "list" = tryC E (.seq "list" c) := by
+  funext v; simp only [tryC]
+
+/-- **C07 (`ValueOrList[T]`).**  The node is a sum node with exactly two children, in this order: the own
+report of the element converter `T` and the own report of the list converter `List[T]`, both on the SAME
+value (and both fast passes fail). -/
+theorem C07_vol_tree (c : Conv) (v : Val) {t : Err} (h : colC E (.vol c) v = .ok (some t)) :
+    ∃ t1 t2, t = .sum [t1, t2] ∧
+      colC E c v = .ok (some t1) ∧ colC E (.seq "list" c) v = .ok (some t2) ∧
+      tryC E c v = .interrupt ∧ tryC E (.seq "list" c) v = .interrupt := by
+  simp only [colC] at h
+  rw [colC_seq_list_eq, tryC_seq_list_eq] at h
+  cases hs : sumCol [tryC E c, tryC E (.seq "list" c)] [colC E c, colC E (.seq "list" c)] v with
+  | interrupt => rw [hs] at h; cases h
+  | leak e => rw [hs] at h; cases h
+  | ok o =>
+    rw [hs] at h
+    cases o with
+    | none => cases h
+    | some l =>
+      simp only [Outcome.ok.injEq, Option.some.injEq] at h
+      subst h
+      obtain ⟨h1, h2⟩ := sumCol_members _ _ _ _ hs
+      simp only [List.length_cons, List.length_nil, Nat.min_self] at h1
+      match l, h1 with
+      | [t1, t2], _ =>
+        obtain ⟨f, g, hf, hg, hfv, hgv⟩ := h2 0 t1 rfl
+        obtain ⟨f', g', hf', hg', hfv', hgv'⟩ := h2 1 t2 rfl
+        simp only [List.getElem?_cons_zero, List.getElem?_cons_succ, Option.some.injEq] at hf hg hf' hg'
+        subst hf; subst hg; subst hf'; subst hg'
+        exact ⟨t1, t2, rfl, hgv, hgv', hfv, hfv'⟩
 
 /-- whatever a union converter reports is a sum node -/
 theorem C07_union_is_sum (cs : List Conv) (v : Val) {t : Err} (h : colC E (.union cs) v = .ok (some t)) :
@@ -942,6 +981,7 @@ example : ∃ cause, Err.wrongType "a string regex pattern" (.str "a+") (some "V
 #print axioms C07_tuple_accepted_no_child
 #print axioms C07_seq_children
 #print axioms C07_seq_node_or_leaf
+#print axioms C07_vol_tree
 #print axioms C07_struct_children
 #print axioms C07_struct_child_is_own_tree
 #print axioms C07_struct_rejected_has_child
